@@ -815,7 +815,10 @@ Conf(ev) ==
                 \* C14 / C19: the image of a compound with at least one leaf packet parses as a compound
                 /\ ((P("C14") \/ P("C19")) /\ RtCtx(ev) /\ bld.cfg.kind = "compound" /\ Leaves(bld.cfg) # <<>>) =>
                       (ev.b = img /\ IsOk(ev.res))
-      [] ev.op = "cnext"       -> IF cit.valid THEN CNextConf(cit, ev) ELSE ev.res.t = "closed"
+      \* a "lean" next() records only none / some(ok) / some(err): the control part is judged, the content is not
+      [] ev.op = "cnext"       -> IF ~cit.valid THEN ev.res.t = "closed"
+                                  ELSE IF Has(ev, "lean") THEN CNextCtl(cit, ev.res) /\ NoPanic(ev)
+                                  ELSE CNextConf(cit, ev)
       [] ev.op = "nack_open"   -> (P("C01") \/ P("C15")) => IsOk(ev.res)
       [] ev.op = "nack_next"   -> NackNextConf(nit.its[ev.it + 1], ev.res)
       [] ev.op = "nack_pair"   -> (P("C01") \/ P("C15")) =>
